@@ -215,6 +215,28 @@ def startAccepts (t0 : Nat) (s : Start) (t : Nat) : Bool :=
   | none => false
   | some r => if r ≤ t0 then decide (r ≤ t ∧ t < t0) else decide (r ≤ t)
 
+/-! ## main.go's starters as starts
+
+Who calls `ListenAndServe*` in the process: `startServers` once per configured listener at start-up, and the
+`tcp-dynamic` refresher on every wake-up, for every port of the table nobody listens on. A wake-up is atomic in the
+model (test of `shuttingDown`, free-port probe and registration at one tick — the residual race of 4001ac4 is the
+stated gap). `flagAt` = tick at which the exit handler sets `shuttingDown`; `proxy.Shutdown` takes its snapshot at
+`t0 ≥ flagAt` (deregistration and the grace period lie between). -/
+
+/-- the starts one refresher wake-up at tick `tick` makes: a tcp listener on every port in `ports` (the ports of the
+table that were free at that moment); none once the flag is set, if the refresher looks at it -/
+def wakeUpStarts (stopsOnShutdown : Bool) (flagAt tick : Nat) (ports : List String) : List Start :=
+  if stopsOnShutdown && decide (flagAt ≤ tick) then []
+  else ports.map (fun p => { addr := p, srv := .single { kind := .tcp, work := [] }, registersAt := some tick })
+
+/-- all wake-ups: `(tick, free ports at that tick)` -/
+def refresherStarts (stopsOnShutdown : Bool) (flagAt : Nat) (wakeUps : List (Nat × List String)) : List Start :=
+  wakeUps.flatMap (fun w => wakeUpStarts stopsOnShutdown flagAt w.1 w.2)
+
+/-- the listeners `startServers` brings up: each registers at its own tick, or never (bind error ⇒ `exit.Fatal`) -/
+def startupStarts (cfg : List (String × Server × Option Nat)) : List Start :=
+  cfg.map (fun c => { addr := c.1, srv := c.2.1, registersAt := c.2.2 })
+
 /-! ## The registry lock
 
 `proxy.Shutdown` starts with `mu.Lock()`. Its first effect — the snapshot, after which listeners get closed —
